@@ -63,8 +63,8 @@ PROPS = {
                "Zap.Props.C04Loaders.loaders_agree", "Zap.Props.C04Loaders.loaders_contain_id"],
               CODEC_FILES + ["ZapProofs/Props/C04.lean", "ZapModel/Loaders.lean", "ZapProofs/WriterLemmasLoaders.lean",
                              "ZapProofs/Props/C04Loaders.lean"]),
-    "C05": _p([{"regress": "d3_zero_survivors.script"}, {"gen": "C05"}], ["ZapProofs.Props.C05"],
-              ["Zap.remapSeg_spec", "Zap.remapAll_spec", "Zap.newDocCount_eq", "Zap.C05_consecutive", "Zap.C05_bijection",
+    "C05": _p([{"regress": "d3_zero_survivors.script"}, {"gen": "C05"}], ["ZapProofs.Props.C05", "ZapProofs.Props.DocNumWidth"],
+              ["Zap.DocNumWidth.no_narrow_docnum", "Zap.remapSeg_spec", "Zap.remapAll_spec", "Zap.newDocCount_eq", "Zap.C05_consecutive", "Zap.C05_bijection",
                "Zap.C05_count", "Zap.C05_maps", "Zap.C05_zero", "Zap.C05_stored", "Zap.mergedFieldNames_spec",
                "Zap.fieldsSame_sound"], MERGE_FILES),
     "C06": _p([{"regress": "k1_shape_only_field_merge.script"}, {"gen": "C06"}], ["ZapProofs.Props.C06", "ZapProofs.Props.C06Dv"],
@@ -144,8 +144,8 @@ PROPS = {
                "Zap.C14.C14_contract_satisfiable", "Zap.C14.C14_code_order", "Zap.Props.Codec.vectorCode_order"],
               VEC_FILES, replay_vectors=True,
               partial="the vector engine is a pure-Go stand-in (fakefaiss) with a stated contract; FAISS itself and the clustered (IVF) class beyond soundness are not verified"),
-    "C15": _p([{"gen": "C15", "vectors": True}], ["ZapProofs.Props.C15"],
-              ["Zap.C15.C15_vecs", "Zap.C15.C15_none_iff", "Zap.C15.C15_closure_identity", "Zap.C15.C15_closure_compose",
+    "C15": _p([{"gen": "C15", "vectors": True}], ["ZapProofs.Props.C15", "ZapProofs.Props.DocNumWidth"],
+              ["Zap.DocNumWidth.no_narrow_docnum", "Zap.C15.C15_vecs", "Zap.C15.C15_none_iff", "Zap.C15.C15_closure_identity", "Zap.C15.C15_closure_compose",
                "Zap.C15.C15_admissible_union", "Zap.C15.C15_search_merged"],
               VEC_FILES, replay_vectors=True, partial="engine stand-in; vector ids assumed distinct across inputs"),
     "C16": _p([{"regress": "d5_vec_cache_except.script", "vectors": True}, {"gen": "C16", "vectors": True},
